@@ -31,6 +31,12 @@ class C09(e1.E1Check):
             "bytemask is 1 exactly at None; illegal axes raise. non-trivial = non-empty result or required error.")
     assumptions = ["bridge+mirror marshalling", "reference semantics in model/refops.py"]
 
+    def extra_states(self, tier):
+        import encs
+        g1 = [(opt(I), tvs, list(encs.encodings(opt(I), tvs, 1, True))) for tvs in values.long_option_values((9, 17) if tier == "quick" else (8, 9, 15, 16, 17, 25))]
+        g2 = [(var(opt(I)), tvs, list(encs.encodings(var(opt(I)), tvs, 1, True))) for tvs in values.long_option_list_values()]
+        return [g1[:len(g1) // 2], g1[len(g1) // 2:], g2]
+
     def alphabet(self, T, tvs, tier):
         lo, hi = refops.array_depth(T)
         ops = []
